@@ -3,7 +3,7 @@
 from pv import am
 
 
-def build(doc, api_inline=False, **dbkw):
+def build(doc, api_inline=False, note_objects=False, **dbkw):
     from pydbml import Database
     from pydbml.classes import (Column, Enum, EnumItem, Expression, Index, Note, Project,
                                 Reference, StickyNote, Table, TableGroup)
@@ -16,11 +16,19 @@ def build(doc, api_inline=False, **dbkw):
             items = [EnumItem(i.name, note=i.note, comment=i.comment) for i in e.items]
             enums[idx] = db.add(Enum(e.name, items, schema=e.schema, comment=e.comment))
     tables = {}
+    shared_notes = {}
+
+    def nt(text):
+        # note_objects: notes are passed as Note objects, and ONE object is reused for equal texts (the constructors
+        # are documented to copy the text, so sharing an object between owners must be harmless)
+        if not note_objects or text is None:
+            return text
+        return shared_notes.setdefault(text, Note(text))
     for kind, idx in order:
         if kind != 't':
             continue
         t = doc.tables[idx]
-        tab = Table(t.name, schema=t.schema, alias=t.alias, note=t.note, header_color=t.header_color,
+        tab = Table(t.name, schema=t.schema, alias=t.alias, note=nt(t.note), header_color=t.header_color,
                     comment=t.comment, properties=dict(t.props) if t.props else None)
         for c in t.columns:
             ty = enums[c.type.enum] if c.type.kind == 'enum' else c.type.text
@@ -34,7 +42,7 @@ def build(doc, api_inline=False, **dbkw):
             else:
                 dv = d.value
             tab.add_column(Column(c.name, ty, unique=c.unique, not_null=c.not_null, pk=c.pk,
-                                  autoinc=c.autoinc, default=dv, note=c.note, comment=c.comment,
+                                  autoinc=c.autoinc, default=dv, note=nt(c.note), comment=c.comment,
                                   properties=dict(c.props) if c.props else None))
         for i in t.indexes:
             subj = [tab[s] if k == 'col' else Expression(s) for k, s in i.subjects]
